@@ -8,14 +8,14 @@
 /// number of times `info` is declared/defined for step k by  init_at(s)  followed by n calls of unroll
 pub open spec fn total_defs(s: Step, n: int, k: int, info: SmtSignalInfo) -> int {
     init_at_defs(s, k, info)
-    + (if s <= k - 1 && k - 1 < s + n { unroll_defs(Some(s), (k - 1) as Step, k, info) } else { 0 })
-    + (if s <= k && k < s + n { unroll_defs(Some(s), k as Step, k, info) } else { 0 })
+    + (if s <= k - 1 && k - 1 < s + n { unroll_defs(s, (k - 1) as Step, k, info) } else { 0 })
+    + (if s <= k && k < s + n { unroll_defs(s, k as Step, k, info) } else { 0 })
 }
 
 /// unroll from step p only defines signals for steps p and p+1, init_at(s) only for step s
 pub proof fn lemma_schedule_support(s: Step, p: Step, k: int, info: SmtSignalInfo)
     requires s <= p, p < u64::MAX,
-    ensures k != p && k != p + 1 ==> unroll_defs(Some(s), p, k, info) == 0,
+    ensures k != p && k != p + 1 ==> unroll_defs(s, p, k, info) == 0,
             k != s ==> init_at_defs(s, k, info) == 0,
 {
 }
